@@ -78,19 +78,18 @@ T.update({
             "2/C17", "the allocator's own fence layout is read from lowlevel_allocator"),
 })
 
-AGENT_BUILT = {"C09", "C10", "C11", "C13", "C17", "C19", "C20"}
+T.update({
+    "C08": ("compose", "exploration", "stateless iterative-deepening enumeration of all operation sequences on three sibling composable allocators over one first-fit upstream with exactly adjacent blocks, and on fallback/segregator compositions over instrumented leaves",
+            "Every try_deallocate of every live pointer of every sibling on every allocator, at every state reachable within the depth; leaf logs decide the routing in compositions.",
+            "2/C08", "instrumented leaves and the shadow model are trusted; depth 4-5 (siblings) / 5-7 (compositions)"),
+    "C14": ("sched", "model_checking", "stateless exploration of all thread schedules (iterative preemption bounding) of the real temporary-stack list code, scheduling points at every atomic operation through a compile-time <atomic> shim, one forked process per execution so that program exit is part of it; exhaustive DFS of single-thread histories in stack modes 1 and 2",
+            "All programs of 2-4 threads up to 2-4 steps and all schedules up to the preemption bound; exclusivity is checked before every atomic operation; heap balance at process exit.",
+            "2/C14", "sequentially consistent interleavings at atomic operations; plain accesses between them execute atomically; malloc/free wrapped for the heap balance"),
+})
 
-NOT_YET = {
-    "C02": "check under construction in this round (explorer monitors exist; input sweep being built) - will be claimed when its harness is finished",
-    "C08": "check under construction in this round",
-    "C09": "check under construction in this round",
-    "C10": "check under construction in this round",
-    "C11": "check under construction in this round",
-    "C14": "check under construction in this round",
-    "C16": "check under construction in this round",
-    "C17": "check under construction in this round",
-    "C18": "check under construction in this round",
-}
+AGENT_BUILT = {"C08", "C09", "C10", "C11", "C13", "C14", "C17", "C19", "C20"}
+
+NOT_YET = {}
 
 
 def main():
